@@ -258,6 +258,17 @@ func (d *rdDecoder) fill(fr *frame) {
 		panic("runtime error: slice bounds out of range (reader returned a bad count)")
 	}
 	for i := 0; i < n; i++ {
+		// the decoder stops at the first byte that is not JSON: the raw bytes after it are
+		// never looked at
+		if len(d.queue) > 0 {
+			switch d.queue[len(d.queue)-1].(type) {
+			case jsonGarbage, jsonStray:
+				switch buf[i].(type) {
+				case byte, symv:
+					continue
+				}
+			}
+		}
 		switch b := buf[i].(type) {
 		case jsonItem:
 			d.queue = append(d.queue, b.item)
@@ -398,7 +409,11 @@ const (
 
 
 // DocStream field indices (vh.DocStream{Items, OnRead, Mode, chunks, next, pending, pendingErr}).
-const dsItems = 0
+const (
+	dsItems         = 0
+	dsSymPending    = 5 // vh.DocStream.pending: under symgo the slots of a chunk that did not fit the buffer
+	dsSymPendingErr = 6
+)
 
 func vhGlobal(fr *frame, name string) value {
 	g := fr.i.prog.ImportedPackage(VHPath).Var(name)
@@ -423,30 +438,36 @@ func emitChunkSym(fr *frame, args []value) value {
 	c := args[2].(structure) // chunk{Parts, Err, Delivered}
 	items, _ := st[dsItems].([]value)
 	parts, _ := c[0].([]value)
-	if len(p) < len(parts) {
-		panic("vh.DocStream: chunk larger than the read buffer")
-	}
-	for n, pv := range parts {
+	var slots []value
+	for _, pv := range parts {
 		pt := pv.(structure) // part{Kind, Idx}
 		kind, idx := int(asInt64(pt[0])), int(asInt64(pt[1]))
 		switch kind {
 		case 0:
-			if b, ok := garbageByte(items[idx]); ok {
-				p[n] = b // a one-byte piece of non-JSON text travels as the byte itself
+			if bs, ok := garbageBytes(items[idx]); ok {
+				slots = append(slots, bs...) // short non-JSON text travels as its own bytes
 				break
 			}
-			p[n] = jsonItem{items[idx]}
+			slots = append(slots, jsonItem{items[idx]})
 		case 1:
-			p[n] = jsonHead{idx}
+			slots = append(slots, jsonHead{idx})
 		case 2:
-			p[n] = jsonTail{idx, items[idx]}
+			slots = append(slots, jsonTail{idx, items[idx]})
 		}
 	}
-	return tuple{len(parts), c[1]}
+	if len(p) < len(slots) {
+		// the caller's buffer is shorter than the chunk: the rest is served by later reads
+		st[dsSymPending] = append([]value{}, slots[len(p):]...)
+		st[dsSymPendingErr] = c[1]
+		copy(p, slots[:len(p)])
+		return tuple{len(p), iface{}}
+	}
+	copy(p, slots)
+	return tuple{len(slots), c[1]}
 }
 
-// garbageByte: the byte of a Garbage fault whose text is a single (possibly symbolic) byte.
-func garbageByte(item value) (value, bool) {
+// garbageBytes: the bytes of a Garbage fault whose text is 1-4 (possibly symbolic) bytes.
+func garbageBytes(item value) ([]value, bool) {
 	it, ok := item.(iface)
 	if !ok || it.t == nil || !strings.HasSuffix(it.t.String(), "vh.Fault") {
 		return nil, false
@@ -457,12 +478,16 @@ func garbageByte(item value) (value, bool) {
 	}
 	switch t := st[1].(type) {
 	case string:
-		if len(t) == 1 {
-			return t[0], true
+		if len(t) >= 1 && len(t) <= 4 && t != "@@" {
+			out := make([]value, len(t))
+			for i := range out {
+				out[i] = t[i]
+			}
+			return out, true
 		}
 	case symStr:
-		if len(t.B) == 1 {
-			return t.B[0], true
+		if len(t.B) >= 1 && len(t.B) <= 4 {
+			return append([]value{}, t.B...), true
 		}
 	}
 	return nil, false
@@ -506,7 +531,93 @@ func ioErrUnexpectedEOF(fr *frame) value {
 	return *fr.i.base.globals[g]
 }
 
+// jsonSyntaxError builds a *json.SyntaxError (the decoder model's errors carry the real
+// decoder's dynamic types, which code under test may inspect with errors.As).
+func jsonSyntaxError(fr *frame, msg string) value {
+	pkg := fr.i.prog.ImportedPackage("encoding/json")
+	if pkg == nil || pkg.Type("SyntaxError") == nil {
+		return mkError(fr, msg)
+	}
+	t := pkg.Type("SyntaxError").Type()
+	var box value = structure{msg, int64(0)}
+	return iface{types.NewPointer(t), &box}
+}
+
+// errors.Is / errors.As over the interpreted error chain (the real ones use reflectlite).
+func initErrors() {
+	unwrap := func(fr *frame, e iface) (value, bool) {
+		ms := fr.i.prog.MethodSets.MethodSet(e.t)
+		sel := ms.Lookup(nil, "Unwrap")
+		if sel == nil {
+			return nil, false
+		}
+		f := fr.i.prog.MethodValue(sel)
+		if f == nil || f.Signature.Results().Len() != 1 {
+			return nil, false
+		}
+		if _, isSlice := f.Signature.Results().At(0).Type().Underlying().(*types.Slice); isSlice {
+			unsup("errors: Unwrap() []error")
+		}
+		return call(fr.i, fr, 0, f, []value{e.v}), true
+	}
+	reg("errors.As", func(fr *frame, args []value) value {
+		target, ok := args[1].(iface)
+		if !ok || target.t == nil {
+			panic("errors: target cannot be nil")
+		}
+		pt, ok := target.t.Underlying().(*types.Pointer)
+		if !ok {
+			panic("errors: target must be a non-nil pointer")
+		}
+		want := pt.Elem()
+		slot := target.v.(*value)
+		err := args[0]
+		for n := 0; n < 64; n++ {
+			e, ok := err.(iface)
+			if !ok || e.t == nil {
+				return false
+			}
+			if types.Identical(e.t, want) {
+				*slot = e.v
+				return true
+			}
+			if it, isItf := want.Underlying().(*types.Interface); isItf && types.Implements(e.t, it) {
+				*slot = e
+				return true
+			}
+			next, has := unwrap(fr, e)
+			if !has {
+				return false
+			}
+			err = next
+		}
+		return false
+	})
+	reg("errors.Is", func(fr *frame, args []value) value {
+		err, target := args[0], args[1]
+		for n := 0; n < 64; n++ {
+			e, ok := err.(iface)
+			if !ok || e.t == nil {
+				t, ok2 := target.(iface)
+				return ok2 && t.t == nil && (!ok || e.t == nil)
+			}
+			if t, ok2 := target.(iface); ok2 && t.t != nil && types.Identical(e.t, t.t) {
+				if sameIface(e, t) || equals(e.t, e.v, t.v) {
+					return true
+				}
+			}
+			next, has := unwrap(fr, e)
+			if !has {
+				return false
+			}
+			err = next
+		}
+		return false
+	})
+}
+
 func initJSON() {
+	initErrors()
 	reg(VHPath+".emitChunk", emitChunkSym)
 	reg("(*encoding/json.Decoder).Buffered", func(fr *frame, args []value) value {
 		var text string
@@ -620,7 +731,7 @@ func initJSON() {
 				*target = item
 				return iface{}
 			case fGarbage, fStrayClose:
-				d.stuck = mkError(fr, "invalid character looking for beginning of value")
+				d.stuck = jsonSyntaxError(fr, "invalid character looking for beginning of value")
 			case fTruncated:
 				d.queue = d.queue[1:]
 				// the decoder needs more data: it reads on until the reader gives up
